@@ -1,7 +1,7 @@
 #!/venv/bin/python
 """Add an entry to known_findings.json (never called by a check).
    usage: kf_add.py fixed <property> <rule> <commit> <what>
-          kf_add.py open  <property> <rule> <key> <what>"""
+          kf_add.py open  <property> <rule> <construct>::<key> <what>"""
 import json, sys
 p = "/verif/known_findings.json"
 k = json.load(open(p))
@@ -10,7 +10,8 @@ if kind == "fixed":
     e = {"property": prop, "rule": rule, "status": "fixed", "commit": x, "what": what,
          "line": "fixed: property=%s %s %s" % (prop, x, what)}
 else:
-    e = {"property": prop, "rule": rule, "status": "open", "key": x, "what": what}
+    construct, key = x.split("::", 1)
+    e = {"property": prop, "rule": rule, "construct": construct, "key": key, "status": "open", "what": what}
 k["findings"].append(e)
 json.dump(k, open(p, "w"), indent=1)
 print("added", kind, prop, rule, x)
